@@ -46,6 +46,8 @@ def jobs(tier, seed):
     for seq in (["P1"], ["P2", "R3"], ["R1", "P3"]):
         out.append({"id": f"ok/twice/{'-'.join(seq)}", "fam": "ok", "seq": seq, "place": "between", "twice": True})
     for seq in (["P1"], ["R3", "P2"]):
+        for w in ("loop", "macro", "scope"):
+            out.append({"id": f"ok/in-{w}/{'-'.join(seq)}", "fam": "ok", "seq": seq, "place": "between", "wrapper": w})
         out.append({"id": f"ok/delta-reassigned/{'-'.join(seq)}", "fam": "ok", "seq": seq, "place": "between", "reassigned": True})
         out.append({"id": f"ok/delta-shadowed/{'-'.join(seq)}", "fam": "ok", "seq": seq, "place": "between", "shadowed": True})
     for m in MALFORMED:
@@ -95,6 +97,16 @@ def run(spec, cx):
             cx.assume(((o[0] << 16) | (o[1] << 8) | o[2]) != EOF_MARK)
         if spec.get("literal_delta"):
             syms, directive = {}, ".include_ips 'p.ips', -0x1234\n"
+        elif spec.get("wrapper") == "loop":
+            # two iterations, the delta depends on the loop variable
+            syms = {"d": cx.int("d", -65536, 65535)}
+            directive = ".for i := 0, 2 {\n.include_ips 'p.ips', d + i * 0x100\n}\n"
+        elif spec.get("wrapper") == "macro":
+            syms = {"d": cx.int("d", -65536, 65535), "e": cx.int("e", -65536, 65535)}
+            directive = ".macro inc(delta) {\n.include_ips 'p.ips', delta\n}\ninc(d)\ninc(e)\n"
+        elif spec.get("wrapper") == "scope":
+            syms = {"d": cx.int("d", -65536, 65535)}
+            directive = ".scope ns {\noff = d\n{\n.include_ips 'p.ips', d + 2\n}\n}\n"
         elif spec.get("reassigned"):
             # the delta is the value of the variable where the directive stands
             syms = {"d": cx.int("d", -65536, 65535), "e": cx.int("e", -65536, 65535)}
@@ -147,6 +159,12 @@ def run(spec, cx):
 def _expected_records(spec, cx):
     if spec.get("twice"):
         return _records_with(spec, cx, cx.t("d")) + _records_with(spec, cx, cx.t("e"))
+    if spec.get("wrapper") == "loop":
+        return _records_with(spec, cx, cx.t("d")) + _records_with(spec, cx, cx.t("d") + 0x100)
+    if spec.get("wrapper") == "macro":
+        return _records_with(spec, cx, cx.t("d")) + _records_with(spec, cx, cx.t("e"))
+    if spec.get("wrapper") == "scope":
+        return _records_with(spec, cx, cx.t("d") + 2)
     if spec.get("shadowed"):
         return _records_with(spec, cx, cx.t("d") + 1)
     return _records_with(spec, cx, B(-0x1234) if spec.get("literal_delta") else cx.t("d"))
